@@ -30,8 +30,12 @@ def replay_file(path: str, quiet=False):
     st = world.initial()
     found = []
     log = []
+    from . import sandbox
+
     for i, ev in enumerate(events):
+        sandbox.invalidate()
         obs = world.apply(st, ev)
+        sandbox.invalidate()
         vs = world.check(st, ev, obs)
         log.append((ev, obs))
         if vs and i == len(events) - 1 and rec["kind"] == "transition":
@@ -51,7 +55,9 @@ def replay_file(path: str, quiet=False):
         active = False
         for ev in [_tup(e) for e in rec["cycle"]]:
             pre = world.key(st)
+            sandbox.invalidate()
             obs = world.apply(st, ev)
+            sandbox.invalidate()
             log.append((ev, obs))
             if world.key(st) != pre or not world.quiet(obs):
                 active = True
